@@ -19,13 +19,13 @@ Ltac pcbn_in H := cbn [p_r p_tree p_scopeStack p_pkgEndStack p_streamEnd p_allBl
 (** steps that touch the reader and payload fields only *)
 Definition rstep (s s' : pstate) : Prop :=
   r_len (p_r s') = r_len (p_r s) /\ r_offset (p_r s) <= r_offset (p_r s') /\
-  p_scopeStack s' = p_scopeStack s /\ lp s' = lp s.
+  p_scopeStack s' = p_scopeStack s /\ lp s' = lp s /\ p_pkgEndStack s' = p_pkgEndStack s.
 
 Lemma rstep_refl s : rstep s s.
 Proof. unfold rstep. repeat split; auto. lia. Qed.
 
 Lemma rstep_trans a b c : rstep a b -> rstep b c -> rstep a c.
-Proof. unfold rstep. intros (A1 & A2 & A3 & A4) (B1 & B2 & B3 & B4). repeat split; try congruence. lia. Qed.
+Proof. unfold rstep. intros (A1 & A2 & A3 & A4 & A5) (B1 & B2 & B3 & B4 & B5). repeat split; try congruence. lia. Qed.
 
 Lemma rstep_tset s p f : rstep s (with_tree s (tset (p_tree s) p f)).
 Proof. unfold rstep, lp. pcbn. rewrite tset_len. repeat split; auto. lia. Qed.
@@ -34,7 +34,7 @@ Lemma rstep_r s r1 : adv (p_r s) r1 -> rstep s (with_r s r1).
 Proof. intros ((_ & E & _) & L & _). unfold rstep, lp. pcbn. repeat split; auto. Qed.
 
 Lemma rstep_Ext s s' g : rstep s s' -> Ext s g s' g.
-Proof. intros (A1 & A2 & A3 & A4). constructor; auto using gext_refl. exists []. exact A3. Qed.
+Proof. intros (A1 & A2 & A3 & A4 & A5). constructor; auto using gext_refl; [exists []; exact A3|rewrite A5; lia|rewrite A5; lia]. Qed.
 
 Ltac nfreed :=
   match goal with
@@ -182,9 +182,9 @@ Proof.
   apply wp_bind, wp_get.
   set (s2 := with_tree (with_tree s t1) (tset (p_tree (with_tree s t1)) p (set_amlOffset (r_offset (p_r (with_tree s t1)))))) in *.
   assert (S02 : r_len (p_r s2) = r_len (p_r s) /\ r_offset (p_r s2) = r_offset (p_r s) /\
-                p_scopeStack s2 = p_scopeStack s /\ lp s2 <= lp s + 1).
+                p_scopeStack s2 = p_scopeStack s /\ lp s2 <= lp s + 1 /\ p_pkgEndStack s2 = p_pkgEndStack s).
   { unfold s2, lp. pcbn. rewrite tset_len. repeat split; auto. lia. }
-  destruct S02 as (L02 & O02 & St02 & Lp02).
+  destruct S02 as (L02 & O02 & St02 & Lp02 & Pk02).
   assert (Fin : forall (ares : option N * pres) s',
      (let '(a, res) := ares in FI s' g1 /\ rstep s2 s' /\ a = Some p /\ (res = ROk -> r_offset (p_r s2) < r_offset (p_r s')) /\
          (argTy = aml_pArgTypeByteData -> exists po v, tget (p_tree s') p = Some po /\ o_value po = Some (VNum v))) ->
@@ -197,8 +197,8 @@ Proof.
                       (argTy = aml_pArgTypeByteData -> exists po v, tget (p_tree s') obj = Some po /\ o_value po = Some (VNum v))
         | None => res = RFailed /\ argTy <> aml_pArgTypeByteData
         end)).
-  { intros [a res] s' (F1 & (R1 & R2 & R3 & R4) & -> & F4 & F5). exists g1. split; [exact F1|]. split.
-    - constructor; [exact Hext|congruence|lia|exists []; cbn; congruence].
+  { intros [a res] s' (F1 & (R1 & R2 & R3 & R4 & R5) & -> & F4 & F5). exists g1. split; [exact F1|]. split.
+    - constructor; [exact Hext|congruence|lia|exists []; cbn; congruence|rewrite R5, Pk02; lia|rewrite R5, Pk02; lia].
     - split; [lia|]. split; [congruence|]. split; [intros Hr; specialize (F4 Hr); lia|]. auto. }
   clearbody s2.
   destruct (argTy =? aml_pArgTypeByteData) eqn:E1.
@@ -223,7 +223,7 @@ Proof.
                        intros; apply wp_namestring; auto|auto|].
     intros [a res] s' (F1 & F2 & F3 & F4). apply (Fin (a, res)). split; [exact F1|]. split; [exact F2|]. split; [exact F3|]. split; [exact F4|]. intros Ebd. contradiction. }
   apply wp_ret. exists g1. split; [exact H2|]. split.
-  - constructor; [exact Hext|congruence|lia|exists []; cbn; congruence].
+  - constructor; [exact Hext|congruence|lia|exists []; cbn; congruence|rewrite Pk02; lia|rewrite Pk02; lia].
   - split; [lia|]. split; [congruence|]. split; [discriminate|split; [reflexivity|exact E1]].
 Qed.
 
@@ -232,49 +232,48 @@ Qed.
 Definition at_ (s s' : pstate) (k c : N) : Prop :=
   r_len (p_r s') = r_len (p_r s) /\ r_offset (p_r s) + k <= r_offset (p_r s') /\
   r_offset (p_r s') <= r_len (p_r s') /\ lp s' <= lp s + c /\
-  exists extra, p_scopeStack s' = extra ++ p_scopeStack s.
+  p_scopeStack s' = p_scopeStack s /\ p_pkgEndStack s' = p_pkgEndStack s.
 
 Lemma at_refl s : rok (p_r s) -> at_ s s 0 0.
-Proof. intros (_ & _ & O). unfold at_. repeat split; auto; try lia. exists []. reflexivity. Qed.
+Proof. intros (_ & _ & O). unfold at_. repeat split; auto; try lia. Qed.
 
 Lemma at_r s s' k c k' r1 : at_ s s' k c -> r_len r1 = r_len (p_r s') -> r_offset (p_r s) + k' <= r_offset r1 ->
   r_offset r1 <= r_len r1 -> at_ s (with_r s' r1) k' c.
-Proof. intros (A1 & A2 & A3 & A4 & A5) B1 B2 B3. unfold at_, lp in *. pcbn. repeat split; auto. congruence. Qed.
+Proof. intros (A1 & A2 & A3 & A4 & A5 & A6) B1 B2 B3. unfold at_, lp in *. pcbn. repeat split; auto. congruence. Qed.
 
 Lemma at_adv s s' k c r1 j : at_ s s' k c -> adv (p_r s') r1 -> r_offset (p_r s') + j <= r_offset r1 ->
   at_ s (with_r s' r1) (k + j) c.
 Proof.
-  intros A ((_ & E & _) & L & L') Hj. pose proof A as (A1 & A2 & A3 & A4 & A5).
+  intros A ((_ & E & _) & L & L') Hj. pose proof A as (A1 & A2 & A3 & A4 & A5 & A6).
   eapply at_r; eauto. lia.
 Qed.
 
 Lemma at_tset s s' k c p f : at_ s s' k c -> at_ s (with_tree s' (tset (p_tree s') p f)) k c.
-Proof. intros (A1 & A2 & A3 & A4 & A5). unfold at_, lp in *. pcbn. rewrite tset_len. repeat split; auto. Qed.
+Proof. intros (A1 & A2 & A3 & A4 & A5 & A6). unfold at_, lp in *. pcbn. rewrite tset_len. repeat split; auto. Qed.
 
 Lemma at_new s s' k c t' : at_ s s' k c -> (length (t_pool t') <= S (length (t_pool (p_tree s'))))%nat ->
   at_ s (with_tree s' t') k (c + 1).
-Proof. intros (A1 & A2 & A3 & A4 & A5) L. unfold at_, lp in *. pcbn. repeat split; auto. lia. Qed.
+Proof. intros (A1 & A2 & A3 & A4 & A5 & A6) L. unfold at_, lp in *. pcbn. repeat split; auto. lia. Qed.
 
 Lemma at_new' s s' k c c' t' : at_ s s' k c -> (length (t_pool t') <= S (length (t_pool (p_tree s'))))%nat ->
   c' = c + 1 -> at_ s (with_tree s' t') k c'.
 Proof. intros A L ->. apply at_new; auto. Qed.
 
 Lemma at_pframe s s' k c t' : at_ s s' k c -> pframe (p_tree s') t' -> at_ s (with_tree s' t') k c.
-Proof. intros (A1 & A2 & A3 & A4 & A5) [L _]. unfold at_, lp in *. pcbn. rewrite L. repeat split; auto. Qed.
+Proof. intros (A1 & A2 & A3 & A4 & A5 & A6) [L _]. unfold at_, lp in *. pcbn. rewrite L. repeat split; auto. Qed.
 
 Lemma at_weaken s s' k c k' c' : at_ s s' k c -> k' <= k -> c <= c' -> at_ s s' k' c'.
-Proof. intros (A1 & A2 & A3 & A4 & A5) K C. unfold at_. repeat split; auto; lia. Qed.
+Proof. intros (A1 & A2 & A3 & A4 & A5 & A6) K C. unfold at_. repeat split; auto; lia. Qed.
 
 Lemma at_Ext s s' k c g g' : at_ s s' k c -> gext g g' -> Ext s g s' g'.
-Proof. intros (A1 & A2 & A3 & A4 & A5) G. constructor; auto. lia. Qed.
+Proof. intros (A1 & A2 & A3 & A4 & A5 & A6) G. constructor; auto; [lia|exists []; exact A5|rewrite A6; lia|rewrite A6; lia]. Qed.
 
 Lemma at_Phi s s' k c : at_ s s' k c -> Phi s' + 4 * k <= Phi s + c /\ rem s' + k <= rem s.
-Proof. intros (A1 & A2 & A3 & A4 & A5). unfold Phi, rem. lia. Qed.
+Proof. intros (A1 & A2 & A3 & A4 & A5 & A6). unfold Phi, rem. lia. Qed.
 
 Lemma at_trans a b d k c k' c' : at_ a b k c -> at_ b d k' c' -> at_ a d (k + k') (c + c').
 Proof.
-  intros (A1 & A2 & A3 & A4 & (e1 & A5)) (B1 & B2 & B3 & B4 & (e2 & B5)). unfold at_. repeat split; try lia; try congruence.
-  exists (e2 ++ e1). rewrite B5, A5. apply app_assoc.
+  intros (A1 & A2 & A3 & A4 & A5 & A6) (B1 & B2 & B3 & B4 & B5 & B6). unfold at_. repeat split; try lia; try congruence.
 Qed.
 
 Lemma at_trans0 a b d k c : at_ a b k c -> at_ b d 0 0 -> at_ a d k c.
@@ -286,11 +285,6 @@ Proof.
   pose proof (at_adv _ _ _ _ r1 0 A Hadv L) as C. rewrite N.add_0_r in C. exact C.
 Qed.
 
-Lemma at_scope s s' k c i : at_ s s' k c -> at_ s (with_scopeStack s' (i :: p_scopeStack s')) k c.
-Proof.
-  intros (A1 & A2 & A3 & A4 & (e & A5)). unfold at_, lp in *. pcbn. repeat split; auto.
-  exists (i :: e). rewrite A5. reflexivity.
-Qed.
 
 Lemma FI_adv s g r1 : FI s g -> adv (p_r s) r1 -> FI (with_r s r1) g.
 Proof. intros H A. apply FI_with_r; auto. eapply rok_adv; eauto. apply (fi_rok _ _ H). Qed.
@@ -373,7 +367,8 @@ Variables (curObj par : N).
 Definition FPre (s : pstate) (g : ghost) (f : fstate) : Prop :=
   FI s g /\ In curObj (kids g par) /\ In (f_appendAfter f) (kids g par) /\ Phi s + 4 <= InvalidIndex.
 Definition FPost (s : pstate) (res : pres) (s' : pstate) : Prop :=
-  Phi s' <= Phi s + 2 /\ (res = RShort -> Phi s' <= Phi s) /\ res <> ROk.
+  Phi s' <= Phi s + 2 /\ (res = RShort -> Phi s' <= Phi s) /\ res <> ROk /\
+  p_scopeStack s' = p_scopeStack s /\ p_pkgEndStack s' = p_pkgEndStack s.
 Definition FSpec (fuel : nat) : Prop := forall f s g, FPre s g f ->
   spec (N.of_nat fuel <= rem s) (fieldElements_go fuel curObj f) s g (fun res s' _ => FPost s res s').
 
@@ -388,9 +383,10 @@ Proof.
   eapply wp_weaken; [apply (IH f1 s1 g1)|..].
   - split; [exact H1|]. split; [exact Hcur|]. split; [exact Haft|]. lia.
   - intros Hf. lia.
-  - intros res s' (g' & F1 & F2 & F3 & F4 & F5). exists g'. split; auto. split.
+  - intros res s' (g' & F1 & F2 & F3 & F4 & F5 & F6 & F7). exists g'. split; auto. split.
     + eapply Ext_trans; [eapply at_Ext; eauto|exact F2].
-    + split; [lia|]. split; [|exact F5]. intros Hr. specialize (F4 Hr). lia.
+    + destruct A1 as (_ & _ & _ & _ & A5 & A6).
+      split; [lia|]. split; [|split; [exact F5|split; congruence]]. intros Hr. specialize (F4 Hr). lia.
 Qed.
 
 (** a failing return *)
@@ -399,7 +395,8 @@ Lemma ffail (P : Prop) s g s1 g1 k c (res : pres) :
   wp P (ret res) s1 (fun res s' => exists g', FI s' g' /\ Ext s g s' g' /\ FPost s res s').
 Proof.
   intros H1 A1 Hc Hext ->. destruct (at_Phi _ _ _ _ A1) as (P1 & P2).
-  apply wp_ret. exists g1. split; auto. split; [eapply at_Ext; eauto|]. split; [lia|]. split; discriminate.
+  apply wp_ret. exists g1. split; auto. split; [eapply at_Ext; eauto|]. split; [lia|]. split; [discriminate|].
+  destruct A1 as (_ & _ & _ & _ & A5 & A6). split; [discriminate|split; assumption].
 Qed.
 
 Lemma fieldElements_spec : forall fuel, FSpec fuel.
@@ -411,7 +408,7 @@ Proof.
   destruct (Hwf _ _ Hcur) as (Hlpar & Hlcur).
   assert (Hlp : lp s + 3 < InvalidIndex) by (unfold Phi in Hroom; lia).
   apply wp_bind, wp_get. destruct (eof (p_r s)) eqn:Ee.
-  { apply wp_ret. exists g. split; auto. split; [apply Ext_refl|]. split; [lia|]. split; [lia|discriminate]. }
+  { apply wp_ret. exists g. split; auto. split; [apply Ext_refl|]. split; [lia|]. split; [lia|]. split; [discriminate|split; reflexivity]. }
   apply wp_bind. apply wp_readByte; auto. intros nx r1 Hadv Hn Hs.
   destruct nx as [next|].
   2:{ exfalso. destruct (Hn eq_refl) as (_ & Hge). unfold eof in Ee. apply N.leb_gt in Ee. lia. }
@@ -504,9 +501,9 @@ Proof.
       intros res s9 (H9 & R9).
       assert (A9 : at_ s s9 2 2).
       { apply at_tset with (p := carg) (f := set_amlOffset (r_offset (p_r s4))) in A7.
-        destruct A7 as (B1 & B2 & B3 & B4 & (e & B5)). destruct R9 as (C1 & C2 & C3 & C4).
+        destruct A7 as (B1 & B2 & B3 & B4 & B5 & B6). destruct R9 as (C1 & C2 & C3 & C4 & C5).
         pose proof (fi_rok _ _ H9) as (_ & _ & O9).
-        unfold at_. repeat split; try lia; try congruence. exists e. congruence. }
+        unfold at_. repeat split; try lia; try congruence. }
       destruct (pres_eqb res ROk); cbn [negb]; [|eapply ffail; [exact H9|exact A9|lia|eapply gext_trans; eauto|reflexivity]].
       apply wp_bind. apply wp_setPkgEnd.
       set (s10 := with_r s9 (fst (setPkgEnd (p_r s9) (r_pkgEnd (p_r s4))))).
@@ -518,7 +515,7 @@ Proof.
       destruct (rok_setOffset (p_r s10) o11 Hrok10) as (Hrok11 & El11).
       assert (H11 : FI s11 g7) by (apply FI_with_r; [apply FI_with_r; [exact H9|exact Hrok10]|exact Hrok11]).
       assert (A11 : at_ s s11 2 2).
-      { destruct A9 as (B1 & B2 & B3 & B4 & B5).
+      { destruct A9 as (B1 & B2 & B3 & B4 & B5 & B6).
         assert (El : r_len (p_r s10) = r_len (p_r s)) by (unfold s10; pcbn; congruence).
         eapply at_r with (s' := s10) (k := 2) (c := 2).
         - unfold at_, s10, lp in *. pcbn. repeat split; auto; try congruence; lia.
